@@ -2,6 +2,9 @@ package simcheck
 
 import (
 	"fmt"
+	"regexp"
+	"sort"
+	"strconv"
 	"strings"
 	"testing"
 	"time"
@@ -81,6 +84,26 @@ func genC17(gen *sim.Stream, maxDecls int) *c17Input {
 			mapvar[i], mapvar[i+1] = r, r
 		}
 	}
+	// vars that nobody references are sometimes named _ (as in `var _ I = T{}` assertions):
+	// several declarations then share one name but keep their own dependencies and position.
+	// Internally they are called _@<index>.
+	blank := make([]bool, n)
+	for i := 0; i < n; i++ {
+		if kinds[i] != "var" || pairWith[i] != 0 || second[i] || gen.Draw(3) != 0 {
+			continue
+		}
+		referenced := false
+		for k := 0; k < n; k++ {
+			for _, j := range refs[k] {
+				if j == i {
+					referenced = true
+				}
+			}
+		}
+		if !referenced {
+			blank[i] = true
+		}
+	}
 	// map-typed pairs are initialised through a helper function declared last in the source
 	// (one per nesting depth); it is an ordinary declaration of the graph
 	helper := map[int]int{}
@@ -96,6 +119,7 @@ func genC17(gen *sim.Stream, maxDecls int) *c17Input {
 				pairWith = append(pairWith, 0)
 				second = append(second, false)
 				mapvar = append(mapvar, 0)
+				blank = append(blank, false)
 			}
 			refs[i] = append(refs[i], h)
 		}
@@ -131,7 +155,7 @@ func genC17(gen *sim.Stream, maxDecls int) *c17Input {
 	decoy := func(i int) string {
 		var cand []string
 		for j := 0; j < n; j++ {
-			if j == i || kinds[j] == "type" {
+			if j == i || kinds[j] == "type" || blank[j] {
 				continue
 			}
 			isRef := false
@@ -180,6 +204,11 @@ func genC17(gen *sim.Stream, maxDecls int) *c17Input {
 	}
 	for i := 0; i < n; i++ {
 		d := c17Decl{Kind: kinds[i], Name: names[i], Refs: refs[i]}
+		srcName := names[i]
+		if blank[i] {
+			d.Name = fmt.Sprintf("_@%d", i)
+			srcName = "_"
+		}
 		var terms []string
 		for _, j := range refs[i] {
 			terms = append(terms, use(j))
@@ -202,16 +231,16 @@ func genC17(gen *sim.Stream, maxDecls int) *c17Input {
 			}
 			switch gen.Draw(3) {
 			case 0:
-				d.Src = fmt.Sprintf("var %s = %s\n", names[i], expr)
+				d.Src = fmt.Sprintf("var %s = %s\n", srcName, expr)
 			case 1:
 				// a function literal whose parameter shadows an unrelated global
 				if dc := decoy(i); dc != "" {
-					d.Src = fmt.Sprintf("var %s = func(%s int) int {\n\treturn %s + %s\n}(2)\n", names[i], dc, dc, expr)
+					d.Src = fmt.Sprintf("var %s = func(%s int) int {\n\treturn %s + %s\n}(2)\n", srcName, dc, dc, expr)
 				} else {
-					d.Src = fmt.Sprintf("var %s = func() int {\n\treturn %s\n}()\n", names[i], expr)
+					d.Src = fmt.Sprintf("var %s = func() int {\n\treturn %s\n}()\n", srcName, expr)
 				}
 			case 2:
-				d.Src = fmt.Sprintf("var %s int = (%s)\n", names[i], expr)
+				d.Src = fmt.Sprintf("var %s int = (%s)\n", srcName, expr)
 			}
 		case "type":
 			var fields []string
@@ -358,11 +387,48 @@ func c17Sort(src string) (out c17Out) {
 	return out
 }
 
+var c17BlankRe = regexp.MustCompile(`^Var:(\d+)\._$`)
+
+// c17NameBlanks gives the declarations named _ (the sorter calls them <n>._ with n growing in
+// source order) the internal names the generator uses for them
+func c17NameBlanks(in *c17Input, out c17Out) c17Out {
+	var internal []string
+	for _, d := range in.Decls {
+		if strings.HasPrefix(d.Name, "_@") {
+			internal = append(internal, d.Name)
+		}
+	}
+	var nums []int
+	for _, it := range out.Items {
+		if m := c17BlankRe.FindStringSubmatch(it); m != nil {
+			k, _ := strconv.Atoi(m[1])
+			nums = append(nums, k)
+		}
+	}
+	sort.Ints(nums)
+	if len(nums) != len(internal) {
+		return out // reported as missing / duplicate by the checks that follow
+	}
+	rank := map[int]string{}
+	for i, k := range nums {
+		rank[k] = internal[i]
+	}
+	res := c17Out{Err: out.Err}
+	for _, it := range out.Items {
+		if m := c17BlankRe.FindStringSubmatch(it); m != nil {
+			k, _ := strconv.Atoi(m[1])
+			it = "Var:" + rank[k]
+		}
+		res.Items = append(res.Items, it)
+	}
+	return res
+}
+
 func init() {
 	register(&Prop{
 		ID:    "C17",
 		Level: "exploration",
-		Rule: "one run = one dependency graph over 2..9 declarations of mixed kinds (quick; thorough up to 12) rendered as Go source with the references placed in initialisers, function-literal bodies, struct field types, array lengths and function bodies at block depth 0..2, with parameters / results / locals that shadow unrelated package-level names, pairs of vars sharing one spec with an explicit type, struct fields / function-type parameters / interface methods named like a referenced constant, constants as keys of map, array and slice literals, labels named like unrelated globals, optional package clause, imports and statements between runs of declarations; sorted under 1 canonical and 12 seeded map-iteration orders (every `range` over a map in base/dep is rewritten at check time to an order the simulator permutes); " +
+		Rule: "one run = one dependency graph over 2..9 declarations of mixed kinds (quick; thorough up to 12) rendered as Go source with the references placed in initialisers, function-literal bodies, struct field types, array lengths and function bodies at block depth 0..2, with parameters / results / locals that shadow unrelated package-level names, pairs of vars sharing one spec with an explicit type, struct fields / function-type parameters / interface methods named like a referenced constant, constants as keys of map, array and slice literals, labels named like unrelated globals, several vars named _ with different dependencies, optional package clause, imports and statements between runs of declarations; sorted under 1 canonical and 12 seeded map-iteration orders (every `range` over a map in base/dep is rewritten at check time to an order the simulator permutes); " +
 			"non-trivial = at least 3 declarations and 2 dependency edges; distinct = distinct source text",
 		Runs: func(tier string) int {
 			if tier == "thorough" {
@@ -407,7 +473,7 @@ func runC17(t *testing.T, ch *sim.Choices, tier string) (o Outcome) {
 	}
 	simmap.Calls, simmap.MultiKey = 0, 0
 	simmap.Order = nil
-	ref := c17Sort(in.Src)
+	ref := c17NameBlanks(in, c17Sort(in.Src))
 	if simmap.Calls == 0 {
 		panic(sim.HarnessFault{Msg: "the map-iteration overlay is not active in this binary (build with check.sh C17)"})
 	}
@@ -425,7 +491,7 @@ func runC17(t *testing.T, ch *sim.Choices, tier string) (o Outcome) {
 			}
 			return p
 		}
-		outs = append(outs, c17Sort(in.Src))
+		outs = append(outs, c17NameBlanks(in, c17Sort(in.Src)))
 	}
 	simmap.Order = nil
 	o.fault("map_iteration_order_permuted", 12)
